@@ -195,6 +195,45 @@ var bodyFiles = map[string]*facts.BodyFile{
 				State: []facts.StateVar{{Key: "recv.CurrentPriv", Lean: "cache", Ty: "bytes"}}},
 		},
 	},
+	// C17: platform/definition.go
+	"BodiesPlatform.lean": {
+		Imports:   []string{"ScrapliModel.Platform"},
+		Namespace: "Scrapli.Gen.Bodies.Platform",
+		Fns: []*facts.FnSpec{
+			{Dir: "platform", Recv: "Platform", Name: "mergeVariant", Lean: "mergeVariant",
+				Doc: "`v` = the variant's sections (strings are Lean `String`s here, a nil on-X list is `none`); " +
+					"state: the eight sections of the receiver that the method may replace.",
+				Binders: "{L S O : Type} (v : Platform.Sections L S O)", BinderArgs: "v", SkipParams: []string{"v"},
+				Vals: map[string]facts.Val{
+					`v.DriverType != ""`:                   {Lean: `(v.driverType != "")`, Ty: "bool"},
+					"v.DriverType":                         {Lean: "v.driverType", Ty: "opaque:String"},
+					"len(v.FailedWhenContains) > 0":        {Lean: "(decide (v.failedWhen.length > 0))", Ty: "bool"},
+					"v.FailedWhenContains":                 {Lean: "v.failedWhen", Ty: "opaque:List String"},
+					"v.OnOpen != nil":                      {Lean: "v.onOpen.isSome", Ty: "bool"},
+					"v.OnOpen":                             {Lean: "v.onOpen", Ty: "opaque:Option (List S)"},
+					"v.OnClose != nil":                     {Lean: "v.onClose.isSome", Ty: "bool"},
+					"v.OnClose":                            {Lean: "v.onClose", Ty: "opaque:Option (List S)"},
+					"len(v.PrivilegeLevels) > 0":           {Lean: "(decide (v.levels.length > 0))", Ty: "bool"},
+					"v.PrivilegeLevels":                    {Lean: "v.levels", Ty: "opaque:List L"},
+					`v.DefaultDesiredPrivilegeLevel != ""`: {Lean: `(v.defaultLevel != "")`, Ty: "bool"},
+					"v.DefaultDesiredPrivilegeLevel":       {Lean: "v.defaultLevel", Ty: "opaque:String"},
+					"v.NetworkOnOpen != nil":               {Lean: "v.netOnOpen.isSome", Ty: "bool"},
+					"v.NetworkOnOpen":                      {Lean: "v.netOnOpen", Ty: "opaque:Option (List S)"},
+					"v.NetworkOnClose != nil":              {Lean: "v.netOnClose.isSome", Ty: "bool"},
+					"v.NetworkOnClose":                     {Lean: "v.netOnClose", Ty: "opaque:Option (List S)"},
+				},
+				State: []facts.StateVar{
+					{Key: "recv.DriverType", Lean: "driverType", Ty: "opaque:String"},
+					{Key: "recv.FailedWhenContains", Lean: "failedWhen", Ty: "opaque:List String"},
+					{Key: "recv.OnOpen", Lean: "onOpen", Ty: "opaque:Option (List S)"},
+					{Key: "recv.OnClose", Lean: "onClose", Ty: "opaque:Option (List S)"},
+					{Key: "recv.PrivilegeLevels", Lean: "levels", Ty: "opaque:List L"},
+					{Key: "recv.DefaultDesiredPrivilegeLevel", Lean: "defaultLevel", Ty: "opaque:String"},
+					{Key: "recv.NetworkOnOpen", Lean: "netOnOpen", Ty: "opaque:Option (List S)"},
+					{Key: "recv.NetworkOnClose", Lean: "netOnClose", Ty: "opaque:Option (List S)"},
+				}},
+		},
+	},
 	// C15: transport/telnet.go
 	"BodiesTelnet.lean": {
 		Imports:   []string{"ScrapliModel.Telnet"},
